@@ -41,7 +41,7 @@ def fromDocument (doc : Json) : Option (List Json) :=
   match kvs with
   | none => none
   | some kvs =>
-    if stringEntry (Json.lookup "id" kvs) ≠ "" then none
+    if (Json.lookup "id" kvs).isSome then none
     else
       let sorted := sortByName kvs
       let special : Option (List Json) := sorted.foldlM (fun acc (k, v) =>
